@@ -110,7 +110,7 @@ def gap_class(gap):
 UNBOUNDED = ("generating Weibull shape < 1.3 with free location and fitted shape < 1: the likelihood is unbounded, "
              "no maximiser exists")
 UNBOUNDED_TRUTH_BETA = 1.3
-NEGATIVE_C = "far-away user start, fitted c < 0: scipy.stats.gengamma is also a law for negative c, the search is unconstrained"
+NEGATIVE_C = "fitted c < 0: scipy.stats.gengamma is also a law for negative c, the search is unconstrained"
 
 
 def unbounded_class(case, *fitted):
@@ -511,9 +511,10 @@ def eval_case(case, argmax_start=None):
         ok, why = admissible(name, pars)
         if not ok:
             extra = {}
-            if name == "GenGamma" and case["start_kind"] == "user_far" and all(math.isfinite(v) for v in pars.values()) \
+            if name == "GenGamma" and not full and all(math.isfinite(v) for v in pars.values()) \
                     and pars["c"] < 0 and pars["m"] > 0 and pars["lambda_"] > 0:
-                extra = {"input_class": NEGATIVE_C}
+                # keyed on the case: far-away user start, or data that are not a float sample of the family itself
+                extra = {"input_class": NEGATIVE_C, "start": "far-away user start or data of another family"}
             out["bad"].append(("parameters_finite_admissible", f"{tag}: start {st}, fitted {pars}: {why}", extra))
             continue
         if name == "LogNormalNormFit":
